@@ -457,6 +457,9 @@ func convertToIntersectionConstraintValue[T any, R any](value any) (R, bool) {
 
 // mergeValues attempts to merge two validated values.
 func mergeValues(a, b any) (any, error) {
+	// A side built by an Optional/Nilable/pointer schema answers with a pointer to its
+	// value: the values are what is merged.
+	a, b = derefMergeOperand(a), derefMergeOperand(b)
 	if reflect.DeepEqual(a, b) {
 		return a, nil
 	}
@@ -491,6 +494,25 @@ func mergeValues(a, b any) (any, error) {
 	default:
 		return nil, issues.CreateIncompatibleTypesError("different values", a, b, nil, &core.ParseContext{})
 	}
+}
+
+// derefMergeOperand follows non-nil pointers (and interfaces they hold) to the value a side
+// of the intersection produced; a nil pointer is a nil result.
+func derefMergeOperand(v any) any {
+	for range 8 {
+		if v == nil {
+			return nil
+		}
+		rv := reflect.ValueOf(v)
+		if rv.Kind() != reflect.Pointer {
+			return v
+		}
+		if rv.IsNil() {
+			return nil
+		}
+		v = rv.Elem().Interface()
+	}
+	return v
 }
 
 // mergeMaps merges two map values.
